@@ -372,6 +372,7 @@ func (s *verifC20Scenario) step(cmd string, kv map[string]string) (res string) {
 			return "bad-op"
 		}
 		var keys, sizes []string
+		var lastPos StreamPosition
 		cursor := ""
 		done := 0
 		n := 0
@@ -381,6 +382,7 @@ func (s *verifC20Scenario) step(cmd string, kv map[string]string) (res string) {
 				return "err=" + verifC20Err(err)
 			}
 			n++
+			lastPos = r.Position
 			for _, p := range r.Publications {
 				keys = append(keys, verifC20Hex(p.Key))
 			}
@@ -395,7 +397,7 @@ func (s *verifC20Scenario) step(cmd string, kv map[string]string) (res string) {
 		if len(keys) > 0 {
 			ks = strings.Join(keys, ",")
 		}
-		return fmt.Sprintf("ok n=%d done=%d sizes=%s keys=%s", n, done, strings.Join(sizes, ","), ks)
+		return fmt.Sprintf("ok pos=%s n=%d done=%d sizes=%s keys=%s", s.pos(lastPos), n, done, strings.Join(sizes, ","), ks)
 	case "stream":
 		since, ok0 := s.parsePos(kv["since"])
 		lim, err1 := strconv.Atoi(kv["lim"])
